@@ -18,7 +18,7 @@ ASSUMPTIONS = ['domain: Gram matrix of the reference regressors has condition nu
 def bounds(tier):
     q = tier == 'quick'
     return {'lattice': 'ZR(1)^N 6<=N<=%d, ZC5^N N=6%s' % (7 if q else 8, '' if q else ''), 'families_N': [8, 9, 16] if q else [8, 9, 16, 32, 64, 128],
-            'orders': 'all p with N-p>=p, p<=20', 'recovery': 'grid 8 p<=3, grid 12 p<=2, amplitudes {1,2-i}, N in {2p+2,16}'}
+            'orders': 'all p with N-p>=p, p<=20', 'recovery': 'grid 8 p<=3, grid 12 p<=2, amplitudes {1,2-i}, N in {2p+2,16}; closely spaced: every run of p adjacent bins of grids 128 (p=4,N=20), 256 (p=3,N=24), 64 (p=3,N=16)'}
 
 
 def expected_clauses(tier):
@@ -43,6 +43,9 @@ def shards(tier):
     out.append(('rec', 8, 3))
     out.append(('rec', 12, 1))
     out.append(('rec', 12, 2))
+    out.append(('close', 128, 20, 4))
+    out.append(('close', 256, 24, 3))
+    out.append(('close', 64, 16, 3))
     return out
 
 
@@ -56,10 +59,15 @@ def run_shard(desc, R, tier):
                 eval_point({'kind': 'ls', 'x': x, 'p': p}, R)
     elif desc[0] == 'gen':
         _, N, cplx = desc
-        fam = (A.gen_cplx(N) + A.tones_cplx(N)) if cplx else (A.gen_real(N) + A.tones_real(N))
+        fam = (A.gen_cplx(N) + A.tones_cplx(N)) if cplx else (A.gen_real(N) + A.tones_real(N) + A.pcm(N))
         for name, x in fam:
             for p in range(1, min(N // 2, 20) + 1):
                 eval_point({'kind': 'ls', 'x': x, 'p': p, 'name': name}, R)
+    elif desc[0] == 'close':
+        # closely spaced lines: every run of p adjacent grid bins (regressor singular-value ratio down to 1e-7); least-squares forms only
+        _, G, N, p = desc
+        for k0 in range(0, G, 1 if tier == 'thorough' else 4):
+            eval_point({'kind': 'rec', 'grid': G, 'bins': [(k0 + i) % G for i in range(p)], 'amps': np.array([1.0 + 0.5j * i for i in range(p)]), 'N': N, 'close': True}, R)
     else:
         _, G, p = desc
         for sub in itertools.combinations(range(G), p):
@@ -81,7 +89,9 @@ def eval_point(pt, R):
         R.point(pt)
         for name, fn in (('arcovar', lambda: spectrum.arcovar(x, p)[0]), ('arcovar_marple', lambda: arcovar_marple(x, p)[0][:p]),
                          ('modcovar', lambda: spectrum.modcovar(x, p)[0]), ('modcovar_marple', lambda: modcovar_marple(x, p)[0][:p])):
-            feats = {'fn': name, 'p': str(p)}
+            feats = {'fn': name, 'p': str(p), 'spacing': 'adjacent' if pt.get('close') else 'grid'}
+            if pt.get('close') and name.endswith('marple'):
+                continue          # the fast recursions lose 1e-3 in the roots at singular-value ratios of 1e-6 (measured); only the lstsq forms are held to exact recovery there
             R.calls()
             try:
                 a = np.asarray(fn())
@@ -90,19 +100,20 @@ def eval_point(pt, R):
                 continue
             roots = np.roots(np.concatenate([[1.0], a]))
             got = np.sort(np.angle(roots))
-            ok = len(got) == p and np.all(np.abs(np.abs(roots) - 1.0) < 1e-6)
+            tolr = 1e-5 if pt.get('close') else 1e-6
+            ok = len(got) == p and np.all(np.abs(np.abs(roots) - 1.0) < tolr)
             if ok:
                 d = np.abs(np.exp(1j * got) - np.exp(1j * want))
                 # sort order may differ at the +-pi seam: compare as sets
-                ok = all(np.min(np.abs(np.exp(1j * g) - np.exp(1j * want))) < 1e-6 for g in got) and \
-                    all(np.min(np.abs(np.exp(1j * w) - np.exp(1j * got))) < 1e-6 for w in want)
+                ok = all(np.min(np.abs(np.exp(1j * g) - np.exp(1j * want))) < tolr for g in got) and \
+                    all(np.min(np.abs(np.exp(1j * w) - np.exp(1j * got))) < tolr for w in want)
             R.check(ok, 'recovery', feats, pt, roots, np.exp(1j * want), 'roots of [1,a] are not the p exponentials', outs=(a, name))
         return
     x = np.asarray(pt['x'])
     p = int(pt['p'])
     N = len(x)
     cplx = np.iscomplexobj(x)
-    dt = 'complex' if cplx else 'real'
+    dt = 'complex' if cplx else ('narrow-int' if x.dtype.kind in 'iu' else 'real')
     for meth, pre in (('covariance', 'cov'), ('modified', 'mod')):
         aref, emin, cond, X = rar.ls_ar(x, p, meth)
         ptm = dict(pt, method=meth)
